@@ -1,14 +1,1305 @@
-//! C17 — not built yet.
-use crate::engine::{Ctx, Property};
+//! C17 — text preprocessing only reorders marks and applies documented decompositions.
+//!
+//! Generated strings (per-script alphabets, long mark runs, every documented rewrite) × script
+//! tags go through `allsorts::scripts::preprocess_text` (and `Font::map_glyphs`); the result is
+//! checked (1) against relational invariants that need no transcription of the algorithm
+//! (content preserved up to the documented expansions, canonical-class-0 characters immobile,
+//! marks stay inside their run, runs stably sorted by the library's own modified class) and
+//! (2) for equality with `refmodel::preprocess`, a transcription of the documented steps.
+
+use crate::engine::util::{mix64, pick};
+use crate::engine::{CaseResult, Ctx, Fail, Property, Rec};
+use crate::fontgen::basic::BasicFont;
+use crate::refmodel::preprocess as rm;
+use crate::refmodel::preprocess::{ccc, tag, ScriptClass, Variant};
+use allsorts::binary::read::ReadScope;
+use allsorts::font::{Font, MatchingPresentation};
+use allsorts::font_data::FontData;
+use allsorts::gsub::GlyphOrigin;
+use allsorts::scripts::preprocess_text;
+use allsorts::unicode::mcc::modified_combining_class;
+use proptest::prelude::*;
+use std::sync::OnceLock;
 
 pub struct C17;
+
+const MAX_LEN: usize = 48;
+
+/// signature of the known SARA AM defect (attributed by defect model only)
+pub const SIG_AM_DEFECT: &str = "C17:thai-lao-later-am-vowel-not-decomposed";
+
+fn fail(sig: &str, msg: String) -> Fail {
+    Fail::new(format!("C17:{}", sig), msg)
+}
+
+/// The sort key the property speaks of: the library's own public modified combining class.
+fn key(c: char) -> u8 {
+    modified_combining_class(c) as u8
+}
+
+fn show(cs: &[char]) -> String {
+    let mut s = String::new();
+    for (i, c) in cs.iter().enumerate() {
+        if i > 0 {
+            s.push(' ');
+        }
+        s.push_str(&format!("{:04X}", *c as u32));
+    }
+    s
+}
+
+fn tag_str(t: u32) -> String {
+    let b = t.to_be_bytes();
+    if b.iter().all(|x| (0x20..0x7F).contains(x)) {
+        format!("'{}'", String::from_utf8_lossy(&b))
+    } else {
+        format!("0x{:08X}", t)
+    }
+}
+
+// ------------------------------------------------------------------------------------------
+// alphabets
+// ------------------------------------------------------------------------------------------
+
+#[derive(Clone, Copy, Debug, PartialEq, Eq)]
+pub enum Family {
+    Arabic,
+    Default,
+    ThaiLao,
+    Indic,
+    Khmer,
+    Myanmar,
+}
+
+const ARABIC_TAGS: &[u32] = &[tag(b"arab")];
+const DEFAULT_TAGS: &[u32] = &[
+    tag(b"latn"),
+    tag(b"cyrl"),
+    tag(b"grek"),
+    tag(b"syrc"),
+    tag(b"syrc"),
+    tag(b"hebr"),
+    tag(b"DFLT"),
+    tag(b"tibt"),
+    tag(b"dev2"),
+    tag(b"knd2"),
+    tag(b"bng2"),
+    tag(b"hang"),
+    0,
+    0xFFFF_FFFF,
+];
+const THAILAO_TAGS: &[u32] = &[tag(b"thai"), tag(b"lao ")];
+const INDIC_TAGS: &[u32] = &[
+    tag(b"deva"),
+    tag(b"beng"),
+    tag(b"guru"),
+    tag(b"gujr"),
+    tag(b"orya"),
+    tag(b"taml"),
+    tag(b"telu"),
+    tag(b"knda"),
+    tag(b"mlym"),
+    tag(b"sinh"),
+    tag(b"beng"),
+    tag(b"knda"),
+];
+const KHMER_TAGS: &[u32] = &[tag(b"khmr")];
+const MYANMAR_TAGS: &[u32] = &[tag(b"mymr"), tag(b"mym2")];
+
+fn all_tags() -> Vec<u32> {
+    let mut v = Vec::new();
+    for l in [ARABIC_TAGS, DEFAULT_TAGS, THAILAO_TAGS, INDIC_TAGS, KHMER_TAGS, MYANMAR_TAGS] {
+        for t in l {
+            if !v.contains(t) {
+                v.push(*t);
+            }
+        }
+    }
+    v
+}
+
+fn family_tags(f: Family) -> &'static [u32] {
+    match f {
+        Family::Arabic => ARABIC_TAGS,
+        Family::Default => DEFAULT_TAGS,
+        Family::ThaiLao => THAILAO_TAGS,
+        Family::Indic => INDIC_TAGS,
+        Family::Khmer => KHMER_TAGS,
+        Family::Myanmar => MYANMAR_TAGS,
+    }
+}
+
+/// every scalar value with a non-zero canonical combining class (independent crate)
+fn all_marks() -> &'static Vec<char> {
+    static M: OnceLock<Vec<char>> = OnceLock::new();
+    M.get_or_init(|| (0x300u32..0x110000).filter_map(char::from_u32).filter(|&c| ccc(c) != 0).collect())
+}
+
+fn chars(v: &[u32]) -> Vec<char> {
+    v.iter().filter_map(|&x| char::from_u32(x)).collect()
+}
+
+const SHADDA: char = '\u{0651}';
+
+fn arabic_marks() -> &'static Vec<char> {
+    static M: OnceLock<Vec<char>> = OnceLock::new();
+    M.get_or_init(|| {
+        let mut v = vec![SHADDA; 5];
+        v.extend_from_slice(&rm::MCM);
+        v.extend(chars(&[
+            0x654, 0x654, 0x655, 0x655, 0x64B, 0x64C, 0x64D, 0x64E, 0x64F, 0x650, 0x652, 0x670, 0x653, 0x653, 0x656, 0x657, 0x65C, 0x65C,
+            0x65F, 0x610, 0x618, 0x619, 0x61A, 0x6D6, 0x6E1, 0x6EA, 0x6ED, 0x8F0, 0x8E4, 0x8D4, 0x711, 0x730, 0x731, 0x5B0, 0x5BC,
+            0x301, 0x323,
+        ]));
+        v
+    })
+}
+
+fn default_marks() -> &'static Vec<char> {
+    static M: OnceLock<Vec<char>> = OnceLock::new();
+    M.get_or_init(|| {
+        let mut v = chars(&[
+            0x300, 0x301, 0x302, 0x308, 0x323, 0x327, 0x328, 0x31B, 0x334, 0x345, 0x35C, 0x360, 0x315, 0x316, 0x591, 0x5AB, 0x5BF,
+            0x5C1, 0x5C2, 0x5C7, 0xFB1E, 0xF71, 0xF72, 0xF74, 0xF7A, 0xF80, 0xF39, 0xF18, 0xF35, 0x711, 0x730, 0x731, 0x732, 0x73A,
+            0x748, 0x3099, 0x302A, 0x302E, 0x20D0, 0x20E1, 0x1D165, 0x1D16D, 0x16FF0, 0x93C, 0x94D, 0xE38, 0xE3A, 0xC55, 0xC56, 0xEB8,
+            0xEC8, 0x651, 0x654,
+        ]);
+        v.extend((0x5B0u32..=0x5BD).filter_map(char::from_u32));
+        v
+    })
+}
+
+fn thai_marks(lao: bool) -> Vec<char> {
+    if lao {
+        chars(&[
+            0xEB1, 0xEB4, 0xEB5, 0xEB6, 0xEB7, 0xEB8, 0xEB9, 0xEBA, 0xEBB, 0xEBC, 0xEC8, 0xEC9, 0xECA, 0xECB, 0xECC, 0xECD, 0xECE, 0xEC8,
+            0xEC9,
+        ])
+    } else {
+        chars(&[
+            0xE31, 0xE34, 0xE35, 0xE36, 0xE37, 0xE38, 0xE39, 0xE3A, 0xE47, 0xE48, 0xE49, 0xE4A, 0xE4B, 0xE4C, 0xE4D, 0xE4E, 0xE48, 0xE49,
+        ])
+    }
+}
+
+fn indic_block(t: u32) -> Option<u32> {
+    match rm::classify_tag(t) {
+        ScriptClass::Indic(s) => Some(match s {
+            rm::Indic::Devanagari => 0x900,
+            rm::Indic::Bengali => 0x980,
+            rm::Indic::Gurmukhi => 0xA00,
+            rm::Indic::Gujarati => 0xA80,
+            rm::Indic::Oriya => 0xB00,
+            rm::Indic::Tamil => 0xB80,
+            rm::Indic::Telugu => 0xC00,
+            rm::Indic::Kannada => 0xC80,
+            rm::Indic::Malayalam => 0xD00,
+            rm::Indic::Sinhala => 0xD80,
+        }),
+        _ => None,
+    }
+}
+
+/// pseudo-random sequence of `n` members of `pool` derived from a seed (pure function)
+fn seq(pool: &[char], n: usize, seed: u64) -> Vec<char> {
+    (0..n).map(|i| pool[(mix64(seed.wrapping_add(i as u64 * 0x9E37)) % pool.len() as u64) as usize]).collect()
+}
+
+// ------------------------------------------------------------------------------------------
+// case model
+// ------------------------------------------------------------------------------------------
+
+#[derive(Clone, Debug)]
+pub enum Seg {
+    /// a base character of the family's script
+    Base(u32),
+    /// any code point of the script's block(s)
+    Block(u32),
+    /// a run of combining marks (top 3 bits: pool, rest: index)
+    Marks(Vec<u32>),
+    /// a family specific construct (documented rewrite trigger)
+    Special(u8, u32, u32),
+    /// any scalar value
+    Any(u32),
+    /// ZWJ, ZWNJ, dotted circle, CGJ, variation selectors, space
+    Joiner(u8),
+}
+
+#[derive(Clone, Debug)]
+pub struct Case {
+    pub family: Family,
+    pub tag: u32,
+    pub segs: Vec<Seg>,
+}
+
+fn seg_strategy() -> impl Strategy<Value = Seg> {
+    let marks = prop_oneof![
+        3 => proptest::collection::vec(any::<u32>(), 1..=4),
+        2 => proptest::collection::vec(any::<u32>(), 5..=12),
+        1 => proptest::collection::vec(any::<u32>(), 13..=30),
+    ];
+    prop_oneof![
+        3 => any::<u32>().prop_map(Seg::Base),
+        1 => any::<u32>().prop_map(Seg::Block),
+        4 => marks.prop_map(Seg::Marks),
+        4 => (0u8..12, any::<u32>(), any::<u32>()).prop_map(|(k, a, b)| Seg::Special(k, a, b)),
+        1 => any::<u32>().prop_map(Seg::Any),
+        1 => (0u8..9).prop_map(Seg::Joiner),
+    ]
+}
+
+fn case_strategy(family: Family) -> impl Strategy<Value = Case> {
+    let segs = prop_oneof![
+        1 => Just(Vec::new()),
+        49 => proptest::collection::vec(seg_strategy(), 1..=8),
+    ];
+    (0u32..16, any::<u32>(), segs).prop_map(move |(sel, r, segs)| {
+        let tag = match sel {
+            0 => {
+                let all = all_tags();
+                all[pick(all.len(), r)]
+            }
+            1 => r, // arbitrary tag value
+            _ => {
+                let l = family_tags(family);
+                l[pick(l.len(), r)]
+            }
+        };
+        Case { family, tag, segs }
+    })
+}
+
+fn any_scalar(r: u32) -> char {
+    let cp = match r & 7 {
+        0 => 0x10000 + (r >> 3) % 0x100000,
+        1 => 0x1D100 + (r >> 3) % 0x200, // musical symbols (astral combining marks)
+        2 => 0x300 + (r >> 3) % 0x70,
+        3 => (r >> 3) % 0x300,
+        _ => (r >> 3) % 0x10000,
+    };
+    char::from_u32(cp).unwrap_or('\u{FFFD}')
+}
+
+fn joiner(k: u8) -> char {
+    match k {
+        0 => '\u{200D}',
+        1 => '\u{200C}',
+        2 => '\u{25CC}',
+        3 => '\u{034F}',
+        4 => '\u{FE0F}',
+        5 => '\u{FE00}',
+        6 => ' ',
+        7 => '\u{00A0}',
+        _ => '\u{200D}',
+    }
+}
+
+fn render_mark(family: Family, lao: bool, r: u32) -> char {
+    let pool_sel = r >> 29;
+    let idx = r << 3;
+    let global = all_marks();
+    if pool_sel == 7 {
+        return global[pick(global.len(), idx)];
+    }
+    match family {
+        Family::Arabic => {
+            let p = arabic_marks();
+            p[pick(p.len(), idx)]
+        }
+        Family::Default => {
+            let p = default_marks();
+            p[pick(p.len(), idx)]
+        }
+        Family::ThaiLao => {
+            let p = thai_marks(lao);
+            p[pick(p.len(), idx)]
+        }
+        Family::Indic | Family::Khmer | Family::Myanmar => unreachable!(),
+    }
+}
+
+pub fn render(case: &Case) -> Vec<char> {
+    let t = case.tag;
+    let lao = t == tag(b"lao ");
+    let mut out: Vec<char> = Vec::new();
+    // the Indic script whose alphabet is used: that of the tag, else derived from the segments
+    let block = indic_block(t);
+    for (si, seg) in case.segs.iter().enumerate() {
+        match seg {
+            Seg::Any(r) => out.push(any_scalar(*r)),
+            Seg::Joiner(k) => out.push(joiner(*k)),
+            Seg::Base(r) => {
+                let pool: Vec<char> = match case.family {
+                    Family::Arabic => chars(&[0x627, 0x628, 0x644, 0x647, 0x6CC, 0x640, 0x20, 0x712, 0x5D0, 0x621]),
+                    Family::Default => chars(&[0x61, 0x65, 0x41, 0x5D0, 0x5D1, 0x5E9, 0xF40, 0x710, 0x712, 0x391, 0x410, 0x3042, 0x915, 0x20]),
+                    Family::ThaiLao => {
+                        if lao {
+                            chars(&[0xE81, 0xE99, 0xEB2, 0xEC0, 0xEAD, 0x61])
+                        } else {
+                            chars(&[0xE01, 0xE19, 0xE2D, 0xE40, 0xE32, 0x61])
+                        }
+                    }
+                    Family::Indic => {
+                        let b = block.unwrap_or(0x900 + 0x80 * (r % 10));
+                        chars(&[b + 0x15, b + 0x30, b + 0x2F, b + 0x05, b + 0x06, b + 0x3E, b + 0x3F, b + 0x47, b + 0x02])
+                    }
+                    Family::Khmer => chars(&[0x1780, 0x179A, 0x17B6, 0x17C1, 0x17C6, 0x17A2]),
+                    Family::Myanmar => chars(&[0x1000, 0x1004, 0x101B, 0x102C, 0x1031, 0x1036]),
+                };
+                out.push(pool[pick(pool.len(), *r)]);
+            }
+            Seg::Block(r) => {
+                let (lo, n) = match case.family {
+                    Family::Arabic => [(0x600, 0x100), (0x750, 0x30), (0x8A0, 0x60), (0x700, 0x50)][(r & 3) as usize],
+                    Family::Default => [(0x590, 0x70), (0xF00, 0x100), (0x370, 0x90), (0x400, 0x100)][(r & 3) as usize],
+                    Family::ThaiLao => {
+                        if lao {
+                            (0xE80, 0x80)
+                        } else {
+                            (0xE00, 0x80)
+                        }
+                    }
+                    Family::Indic => (block.unwrap_or(0x900 + 0x80 * ((r >> 8) % 10)), 0x80),
+                    Family::Khmer => (0x1780, 0x80),
+                    Family::Myanmar => (0x1000, 0xA0),
+                };
+                out.push(char::from_u32(lo + (r >> 2) % n).unwrap_or('\u{FFFD}'));
+            }
+            Seg::Marks(rs) => {
+                for r in rs {
+                    let c = match case.family {
+                        Family::Indic => {
+                            let b = block.unwrap_or(0x900);
+                            let p = chars(&[b + 0x3C, b + 0x4D, b + 0x3C, b + 0x4D, 0x951, 0x952, 0x1CD0, 0x1CDC, 0xC55, 0xC56, 0x93C, 0x9BC, 0xDCA, 0xA8F1]);
+                            if r >> 29 == 7 {
+                                let g = all_marks();
+                                g[pick(g.len(), r << 3)]
+                            } else {
+                                p[pick(p.len(), r << 3)]
+                            }
+                        }
+                        Family::Khmer => {
+                            let p = chars(&[0x17D2, 0x17DD, 0x17D2, 0x17DD, 0x300, 0x323]);
+                            if r >> 29 == 7 {
+                                let g = all_marks();
+                                g[pick(g.len(), r << 3)]
+                            } else {
+                                p[pick(p.len(), r << 3)]
+                            }
+                        }
+                        Family::Myanmar => {
+                            let p = chars(&[0x1037, 0x1039, 0x103A, 0x108D, 0x1037, 0x103A]);
+                            if r >> 29 == 7 {
+                                let g = all_marks();
+                                g[pick(g.len(), r << 3)]
+                            } else {
+                                p[pick(p.len(), r << 3)]
+                            }
+                        }
+                        f => render_mark(f, lao, *r),
+                    };
+                    out.push(c);
+                }
+            }
+            Seg::Special(k, a, b) => {
+                let seed = ((*a as u64) << 32 | *b as u64) ^ (si as u64);
+                special(case.family, t, *k, *a, *b, seed, &mut out);
+            }
+        }
+    }
+    out.truncate(MAX_LEN);
+    out
+}
+
+fn special(family: Family, t: u32, k: u8, a: u32, b: u32, seed: u64, out: &mut Vec<char>) {
+    match family {
+        Family::Arabic => {
+            let hot = chars(&[0x651, 0x651, 0x654, 0x655, 0x64E, 0x650, 0x653, 0x65C, 0x658, 0x6E3, 0x8F3, 0x8CF]);
+            match k % 4 {
+                0 => {
+                    out.push('\u{0628}');
+                    out.extend(seq(&hot, (a % 12) as usize + 2, seed));
+                }
+                1 => {
+                    // MCM not first in its class, or first: both orders
+                    let v: &[u32] = match a % 6 {
+                        0 => &[0x653, 0x654],
+                        1 => &[0x654, 0x653],
+                        2 => &[0x65C, 0x655],
+                        3 => &[0x655, 0x65C],
+                        4 => &[0x655, 0x654, 0x651],
+                        _ => &[0x64E, 0x651, 0x654, 0x655, 0x651],
+                    };
+                    out.push('\u{0644}');
+                    out.extend(chars(v));
+                }
+                2 => {
+                    // long run with several shaddas
+                    out.push('\u{0627}');
+                    let mut pool = arabic_marks().clone();
+                    pool.extend([SHADDA; 6]);
+                    out.extend(seq(&pool, 18 + (a % 14) as usize, seed));
+                }
+                _ => {
+                    // marks at the very start of the text
+                    if out.is_empty() {
+                        out.extend(seq(&hot, (a % 6) as usize + 1, seed));
+                    }
+                    out.push('\u{0628}');
+                }
+            }
+        }
+        Family::Default => match k % 4 {
+            0 => {
+                out.push('\u{05D1}');
+                let pool: Vec<char> = (0x5B0u32..=0x5BD).chain([0x5BF, 0x5C1, 0x5C2, 0x5C7, 0x591, 0x5AB]).filter_map(char::from_u32).collect();
+                out.extend(seq(&pool, (a % 7) as usize + 2, seed));
+            }
+            1 => {
+                out.push('\u{0F40}');
+                out.extend(seq(&chars(&[0xF71, 0xF72, 0xF74, 0xF7A, 0xF80, 0xF39, 0xF18]), (a % 5) as usize + 2, seed));
+            }
+            2 => {
+                out.push('a');
+                out.extend(seq(&chars(&[0x300, 0x301, 0x323, 0x327, 0x31B, 0x334, 0x345, 0x35C, 0x360, 0x315]), (a % 20) as usize + 2, seed));
+            }
+            _ => {
+                out.push('\u{0712}');
+                out.extend(seq(&chars(&[0x711, 0x730, 0x731, 0x732, 0x73A, 0x748, 0x651, 0x654]), (a % 6) as usize + 2, seed));
+            }
+        },
+        Family::ThaiLao => {
+            let lao = (t == tag(b"lao ")) != (b & 15 == 0);
+            let (cons, am, nik, aa, tones, below, phinthu) = if lao {
+                ('\u{0E81}', '\u{0EB3}', '\u{0ECD}', '\u{0EB2}', chars(&[0xEC8, 0xEC9, 0xECA, 0xECB, 0xEB4, 0xEB1, 0xEBB, 0xECC, 0xECD]), chars(&[0xEB8, 0xEB9, 0xEBC]), '\u{0EBA}')
+            } else {
+                ('\u{0E01}', '\u{0E33}', '\u{0E4D}', '\u{0E32}', chars(&[0xE48, 0xE49, 0xE4A, 0xE4B, 0xE34, 0xE31, 0xE47, 0xE4C, 0xE4D]), chars(&[0xE38, 0xE39]), '\u{0E3A}')
+            };
+            match k % 6 {
+                0 => {
+                    out.extend(seq(&tones, (a % 5) as usize, seed));
+                    out.push(am);
+                }
+                1 => {
+                    out.push(cons);
+                    out.push(tones[(a % 4) as usize]);
+                    out.push(am);
+                    out.push(cons);
+                    out.push(am);
+                }
+                2 => {
+                    for _ in 0..(a % 4 + 1) {
+                        out.push(am);
+                    }
+                }
+                3 => {
+                    out.push(cons);
+                    let mut pool = tones.clone();
+                    pool.extend(below.iter());
+                    pool.push(phinthu);
+                    out.extend(seq(&pool, (a % 6) as usize, seed));
+                    out.push(am);
+                    out.push(tones[(b % 4) as usize]);
+                }
+                4 => {
+                    out.push(cons);
+                    out.push(phinthu);
+                    out.push(below[(a as usize) % below.len()]);
+                    if a & 16 != 0 {
+                        out.push(tones[(b % 4) as usize]);
+                    }
+                }
+                _ => {
+                    out.push(cons);
+                    out.extend(seq(&tones[..4], (a % 3) as usize, seed));
+                    out.push(nik);
+                    out.push(aa);
+                }
+            }
+        }
+        Family::Indic => {
+            let block = indic_block(t);
+            let own = |c: char| block.map_or(true, |bl| (c as u32) >= bl && (c as u32) < bl + 0x80);
+            let cons = char::from_u32(block.unwrap_or(0x900) + 0x15).unwrap();
+            // kinds 10 and 11: the rewrite that belongs to the tag's own script
+            let k = match (k, rm::classify_tag(t)) {
+                (10 | 11, ScriptClass::Indic(rm::Indic::Bengali)) => 4,
+                (10 | 11, ScriptClass::Indic(rm::Indic::Kannada)) => {
+                    if out.is_empty() {
+                        5
+                    } else {
+                        0
+                    }
+                }
+                (10, _) => 0,
+                (11, _) => 1,
+                (k, _) => k,
+            };
+            match k % 10 {
+                0 => {
+                    let splits: Vec<char> = rm::INDIC_SPLITS.iter().map(|s| s.0).collect();
+                    let mine: Vec<char> = splits.iter().copied().filter(|c| own(*c)).collect();
+                    let pool = if b % 4 != 0 && !mine.is_empty() { &mine } else { &splits };
+                    if a & 1 == 0 {
+                        out.push(cons);
+                    }
+                    out.push(pool[pick(pool.len(), a)]);
+                }
+                1 | 2 => {
+                    let pairs: Vec<(char, char)> = rm::PROHIBITED_PAIRS.iter().map(|p| (p.0, p.1)).collect();
+                    let mine: Vec<(char, char)> = pairs.iter().copied().filter(|p| own(p.0)).collect();
+                    let pool = if b % 4 != 0 && !mine.is_empty() { &mine } else { &pairs };
+                    let (c1, c2) = pool[pick(pool.len(), a)];
+                    if k % 10 == 1 {
+                        out.push(c1);
+                        out.push(c2);
+                    } else {
+                        match b % 5 {
+                            0 => out.extend([c1, c1, c2]),
+                            1 => out.extend([c1, c2, c2]),
+                            2 => out.extend([c1, c2, c1, c2]),
+                            3 => out.extend([cons, c1, c2, cons]),
+                            _ => out.extend([c2, c1, c2]),
+                        }
+                    }
+                }
+                3 => match a % 4 {
+                    0 => out.extend(rm::REPH_I),
+                    1 => out.extend(chars(&[0x930, 0x94D, 0x93C, 0x907])),
+                    2 => out.extend(chars(&[0x915, 0x930, 0x94D, 0x907, 0x907])),
+                    _ => out.extend(chars(&[0x930, 0x94D, 0x930, 0x94D, 0x907])),
+                },
+                4 => match a % 6 {
+                    0 => out.extend(chars(&[0x9AF, 0x9BC])),
+                    1 => out.extend(chars(&[0x9AF, 0x9BC, 0x9BC])),
+                    2 => out.extend(chars(&[0x9AF, 0x9CD, 0x9BC])),
+                    3 => out.extend(chars(&[0x9AF, 0x951, 0x9BC, 0x9AF, 0x9BC])),
+                    4 => out.extend(chars(&[0x9AF, 0x9AF, 0x9BC, 0x9CB])),
+                    _ => out.extend(chars(&[0x9AF, 0xC55, 0x9BC])),
+                },
+                5 => {
+                    if a % 3 == 0 && !out.is_empty() {
+                        out.push('\u{0C95}');
+                    }
+                    out.extend(chars(&[0xCB0, 0xCCD, 0x200D]));
+                    if a % 2 == 0 {
+                        out.push('\u{0C95}');
+                    }
+                }
+                6 => match a % 5 {
+                    0 => out.extend(chars(&[0xA85, 0xAC5, 0xABE])),
+                    1 => out.extend(chars(&[0xA85, 0xABE, 0xAC5])),
+                    2 => out.extend(chars(&[0xA85, 0xABE, 0xAC8])),
+                    3 => out.extend(chars(&[0xAC5, 0xABE])),
+                    _ => out.extend(chars(&[0xA95, 0xAC5, 0xABE, 0xABE])),
+                },
+                7 => out.extend(chars(&[0xB85, 0xBC2])),
+                8 => {
+                    let bl = block.unwrap_or(0x900);
+                    out.push(cons);
+                    out.extend(seq(&chars(&[bl + 0x4D, bl + 0x3C, 0x951, 0x952, 0xC55, 0xC56]), (a % 5) as usize + 2, seed));
+                }
+                _ => match a % 5 {
+                    0 => out.extend(chars(&[0xD91, 0xDDA])),
+                    1 => out.extend(chars(&[0xD0E, 0xD4A])),
+                    2 => out.extend(chars(&[0x985, 0x9CB])),
+                    3 => out.extend(chars(&[0xD91, 0xDDD, 0xDCA])),
+                    _ => out.extend(chars(&[0xC12, 0xC48, 0xC55])),
+                },
+            }
+        }
+        Family::Khmer => match k % 4 {
+            0 => {
+                out.push('\u{1780}');
+                out.push(rm::KHMER_SPLITS[(a % 5) as usize]);
+            }
+            1 => {
+                out.extend(chars(&[0x1780, 0x17D2, 0x179A]));
+                out.push(rm::KHMER_SPLITS[(a % 5) as usize]);
+            }
+            2 => out.extend(chars(&[0x1780, 0x17DD, 0x17D2])),
+            _ => {
+                for i in 0..(a % 4 + 1) {
+                    out.push(rm::KHMER_SPLITS[((a >> 3).wrapping_add(i) % 5) as usize]);
+                }
+            }
+        },
+        Family::Myanmar => match k % 2 {
+            0 => out.extend(chars(&[0x1000, 0x103A, 0x1037])),
+            _ => out.extend(chars(&[0x1004, 0x103A, 0x1039, 0x1000, 0x108D, 0x1037])),
+        },
+    }
+}
+
+// ------------------------------------------------------------------------------------------
+// the check
+// ------------------------------------------------------------------------------------------
+
+fn sorted(cs: &[char]) -> Vec<char> {
+    let mut v = cs.to_vec();
+    v.sort_unstable();
+    v
+}
+
+fn starters(cs: &[char]) -> Vec<char> {
+    cs.iter().copied().filter(|&c| ccc(c) == 0).collect()
+}
+
+fn runs_sorted(got: &[char]) -> Result<(), (usize, usize)> {
+    for (s, e) in rm::runs(got, &key) {
+        for i in s + 1..e {
+            if key(got[i - 1]) > key(got[i]) {
+                return Err((s, e));
+            }
+        }
+    }
+    Ok(())
+}
+
+fn fixture_font() -> &'static Vec<u8> {
+    static F: OnceLock<Vec<u8>> = OnceLock::new();
+    F.get_or_init(|| {
+        let mut f = BasicFont::with_glyphs(12);
+        for (i, cp) in [0x20u32, 0x61, 0x627, 0x651, 0xE01, 0xE33, 0xE4D, 0x915, 0x25CC, 0x1780, 0x1F600].iter().enumerate() {
+            f.cmap.insert(*cp, i as u16 + 1);
+        }
+        f.build()
+    })
+}
+
+fn is_handled_vs(c: char) -> bool {
+    matches!(c, '\u{FE00}' | '\u{FE01}' | '\u{FE02}' | '\u{FE0E}' | '\u{FE0F}')
+}
+
+fn is_other_vs(c: char) -> bool {
+    matches!(c, '\u{FE03}'..='\u{FE0D}' | '\u{E0100}'..='\u{E01EF}' | '\u{180B}'..='\u{180D}' | '\u{180F}')
+}
+
+fn check_map_glyphs(t: u32, input: &[char], got: &[char], rec: &mut Rec) -> CaseResult {
+    if input.iter().any(|&c| is_other_vs(c)) {
+        rec.class("map_glyphs:skipped-unhandled-variation-selector");
+        return Ok(());
+    }
+    let bytes = fixture_font();
+    let fd = ReadScope::new(bytes).read::<FontData<'_>>().map_err(|e| fail("fixture-font", format!("{:?}", e)))?;
+    let prov = fd.table_provider(0).map_err(|e| fail("fixture-font", format!("{:?}", e)))?;
+    let mut font = Font::new(prov).map_err(|e| fail("fixture-font", format!("{:?}", e)))?;
+    let text: String = input.iter().collect();
+    let glyphs = font.map_glyphs(&text, t, MatchingPresentation::NotRequired);
+    let mut unicodes: Vec<char> = Vec::new();
+    for g in &glyphs {
+        if g.unicodes.len() != 1 || g.glyph_origin != GlyphOrigin::Char(g.unicodes[0]) {
+            return Err(fail(
+                "map-glyphs-unicodes",
+                format!("tag {} text [{}]: glyph with unicodes {:?} origin {:?}", tag_str(t), show(input), g.unicodes, g.glyph_origin),
+            ));
+        }
+        unicodes.push(g.unicodes[0]);
+    }
+    let exp: Vec<char> = got.iter().copied().filter(|&c| !is_handled_vs(c)).collect();
+    if unicodes != exp {
+        return Err(fail(
+            "map-glyphs-unicodes",
+            format!("tag {} text [{}]: map_glyphs unicodes [{}] but preprocess_text gives [{}]", tag_str(t), show(input), show(&unicodes), show(&exp)),
+        ));
+    }
+    Ok(())
+}
+
+/// The whole oracle for one (tag, text).
+pub fn check_text(t: u32, input: &[char], with_font: bool, rec: &mut Rec) -> CaseResult {
+    let class = rm::classify_tag(t);
+    let kannada = class == ScriptClass::Indic(rm::Indic::Kannada);
+    let mut got = input.to_vec();
+    preprocess_text(&mut got, t);
+    let ctx = |what: &str| format!("tag {} input [{}] output [{}]: {}", tag_str(t), show(input), show(&got), what);
+
+    // ---- layer 1 first half: reference and accepted variants (needed for attribution) -------
+    let (exp, tr) = rm::reference(input, t, &key, Variant::PRIMARY);
+    let mut matched = got == exp;
+    let mut ambiguous: Vec<&'static str> = Vec::new();
+    {
+        let mut try_variant = |v: Variant, name: &'static str, ambiguous: &mut Vec<&'static str>| {
+            let (alt, _) = rm::reference(input, t, &key, v);
+            if alt != exp {
+                ambiguous.push(name);
+                if got == alt {
+                    matched = true;
+                }
+            }
+        };
+        match class {
+            ScriptClass::Indic(s) => {
+                try_variant(Variant { rescan_second_of_pair: true, ..Variant::PRIMARY }, "ambiguous:overlapping-prohibited-pairs", &mut ambiguous);
+                if s == rm::Indic::Kannada {
+                    try_variant(Variant { kannada_swap_everywhere: true, ..Variant::PRIMARY }, "ambiguous:kannada-ra-halant-zwj-not-at-text-start", &mut ambiguous);
+                }
+            }
+            ScriptClass::ThaiLao => {
+                try_variant(Variant { lao_0ece_above: true, ..Variant::PRIMARY }, "ambiguous:lao-0ECE-above-base", &mut ambiguous);
+            }
+            _ => {}
+        }
+    }
+    // later-revision pairs (Tamil A + UU): a circle there is tolerated
+    if let ScriptClass::Indic(_) = class {
+        if !matched && input.windows(2).any(|w| rm::LATER_PAIRS.contains(&(w[0], w[1]))) {
+            let mut patched: Vec<char> = Vec::new();
+            for (i, &c) in input.iter().enumerate() {
+                patched.push(c);
+                if i + 1 < input.len() && rm::LATER_PAIRS.contains(&(c, input[i + 1])) {
+                    // private-use stand-in that nothing rewrites; replaced by the circle below
+                    patched.push('\u{F8FF}');
+                }
+            }
+            if !input.contains(&'\u{F8FF}') {
+                let (alt, _) = rm::reference(&patched, t, &key, Variant::PRIMARY);
+                let alt: Vec<char> = alt.into_iter().map(|c| if c == '\u{F8FF}' { rm::DOTTED_CIRCLE } else { c }).collect();
+                if alt == got {
+                    matched = true;
+                    ambiguous.push("ambiguous:later-revision-pair");
+                }
+            }
+        }
+    }
+    // defect model: the known Thai/Lao AM-vowel loop bound
+    if !matched && class == ScriptClass::ThaiLao {
+        let (def, _) = rm::reference(input, t, &key, Variant { defect_am_scan_uses_entry_length: true, ..Variant::PRIMARY });
+        if def != exp && got == def {
+            return Err(Fail::new(
+                SIG_AM_DEFECT,
+                ctx(&format!("documented result [{}]; output equals the model in which the AM-vowel scan stops at the entry length", show(&exp))),
+            ));
+        }
+    }
+
+    // ---- layer 2: relational invariants ---------------------------------------------------
+    match class {
+        ScriptClass::Default | ScriptClass::Syriac | ScriptClass::Arabic | ScriptClass::Myanmar => {
+            if got.len() != input.len() {
+                return Err(fail("length-changed", ctx("length changed for a script without decompositions")));
+            }
+            for i in 0..input.len() {
+                if ccc(input[i]) == 0 && got[i] != input[i] {
+                    return Err(fail("base-moved", ctx(&format!("index {}: a character of canonical class 0 did not keep its position", i))));
+                }
+            }
+            for (s, e) in rm::runs(input, &ccc) {
+                if sorted(&got[s..e]) != sorted(&input[s..e]) {
+                    return Err(fail("mark-left-run", ctx(&format!("run {}..{} is not a permutation of itself", s, e))));
+                }
+            }
+            match class {
+                ScriptClass::Myanmar => {
+                    if got != input {
+                        return Err(fail("myanmar-changed", ctx("Myanmar text is documented as not preprocessed")));
+                    }
+                }
+                ScriptClass::Arabic => {
+                    // whatever AMTRA moves, the marks that are neither shadda nor MCM stay stably sorted
+                    for (s, e) in rm::runs(input, &key) {
+                        let movable = |c: char| ccc(c) == 33 || rm::is_mcm(c);
+                        let mut rest: Vec<char> = input[s..e].iter().copied().filter(|&c| !movable(c)).collect();
+                        rm::stable_sort_by_key(&mut rest, &key);
+                        let got_rest: Vec<char> = got[s..e].iter().copied().filter(|&c| !movable(c)).collect();
+                        if rest != got_rest {
+                            return Err(fail(
+                                "arabic-ordinary-marks-not-stably-sorted",
+                                ctx(&format!("run {}..{}: marks other than shadda/MCM should be [{}]", s, e, show(&rest))),
+                            ));
+                        }
+                    }
+                }
+                _ => {
+                    for (s, e) in rm::runs(input, &key) {
+                        let mut r = input[s..e].to_vec();
+                        rm::stable_sort_by_key(&mut r, &key);
+                        if r[..] != got[s..e] {
+                            return Err(fail("run-not-stably-sorted", ctx(&format!("run {}..{} should be [{}]", s, e, show(&r)))));
+                        }
+                    }
+                }
+            }
+        }
+        ScriptClass::ThaiLao => {
+            let mut expanded: Vec<char> = Vec::new();
+            for &c in input {
+                match rm::am_split(c) {
+                    Some((n, a)) => expanded.extend([n, a]),
+                    None => expanded.push(c),
+                }
+            }
+            if sorted(&got) != sorted(&expanded) {
+                return Err(fail("thai-lao-content", ctx("content differs from the input with every AM vowel split")));
+            }
+            let no_nik = |v: &[char]| -> Vec<char> { starters(v).into_iter().filter(|&c| c != '\u{0E4D}' && c != '\u{0ECD}').collect() };
+            if no_nik(&got) != no_nik(&expanded) {
+                return Err(fail("thai-lao-base-order", ctx("characters of class 0 (other than nikhahit) changed their relative order")));
+            }
+            // the Kannada swap is applied after the reordering: judge sortedness with it undone
+            let mut unswapped = got.clone();
+            if kannada && unswapped.starts_with(&[rm::KANNADA_RA, rm::ZWJ, rm::KANNADA_HALANT]) {
+                unswapped.swap(1, 2);
+            }
+            if let Err((s, e)) = runs_sorted(&unswapped) {
+                return Err(fail("run-not-sorted", ctx(&format!("output run {}..{} is not sorted by modified class", s, e))));
+            }
+        }
+        ScriptClass::Khmer => {
+            let mut expanded: Vec<char> = Vec::new();
+            for &c in input {
+                if rm::KHMER_SPLITS.contains(&c) {
+                    expanded.push(rm::KHMER_SIGN_E);
+                }
+                expanded.push(c);
+            }
+            if sorted(&got) != sorted(&expanded) {
+                return Err(fail("khmer-content", ctx("content differs from the input with every split vowel prefixed by U+17C1")));
+            }
+            if starters(&got) != starters(&expanded) {
+                return Err(fail("khmer-base-order", ctx("characters of class 0 changed their relative order")));
+            }
+            // the Kannada swap is applied after the reordering: judge sortedness with it undone
+            let mut unswapped = got.clone();
+            if kannada && unswapped.starts_with(&[rm::KANNADA_RA, rm::ZWJ, rm::KANNADA_HALANT]) {
+                unswapped.swap(1, 2);
+            }
+            if let Err((s, e)) = runs_sorted(&unswapped) {
+                return Err(fail("run-not-sorted", ctx(&format!("output run {}..{} is not sorted by modified class", s, e))));
+            }
+        }
+        ScriptClass::Indic(script) => {
+            let mut expanded: Vec<char> = Vec::new();
+            for &c in input {
+                match rm::indic_split(c) {
+                    Some(p) => expanded.extend_from_slice(p),
+                    None => expanded.push(c),
+                }
+            }
+            let count = |v: &[char], c: char| v.iter().filter(|&&x| x == c).count() as i64;
+            let circles = count(&got, rm::DOTTED_CIRCLE) - count(&expanded, rm::DOTTED_CIRCLE);
+            let later = input.windows(2).filter(|w| rm::LATER_PAIRS.contains(&(w[0], w[1]))).count() as i64;
+            if circles < 0 || circles > rm::constraint_sites(input) as i64 + later {
+                return Err(fail(
+                    "indic-content",
+                    ctx(&format!("{} dotted circles added, but the input has {} prohibited sequences", circles, rm::constraint_sites(input))),
+                ));
+            }
+            let recomposed = count(&got, rm::BENGALI_YYA) - count(&expanded, rm::BENGALI_YYA);
+            if recomposed != 0 && (script != rm::Indic::Bengali || recomposed < 0) {
+                return Err(fail("indic-content", ctx("U+09DF count changed")));
+            }
+            // undo the allowed changes and compare contents
+            let norm = |v: &[char]| -> Vec<char> {
+                let mut o: Vec<char> = Vec::new();
+                for &c in v {
+                    if c == rm::DOTTED_CIRCLE {
+                        continue;
+                    }
+                    if c == rm::BENGALI_YYA && script == rm::Indic::Bengali {
+                        o.extend([rm::BENGALI_YA, rm::BENGALI_NUKTA]);
+                    } else {
+                        o.push(c);
+                    }
+                }
+                o
+            };
+            if sorted(&norm(&got)) != sorted(&norm(&expanded)) {
+                return Err(fail("indic-content", ctx("content differs from the input by more than splits, dotted circles and ya-nukta recomposition")));
+            }
+            if starters(&norm(&got)) != starters(&norm(&expanded)) {
+                return Err(fail("indic-base-order", ctx("characters of class 0 changed their relative order")));
+            }
+            // the Kannada swap is applied after the reordering: judge sortedness with it undone
+            let mut unswapped = got.clone();
+            if kannada && unswapped.starts_with(&[rm::KANNADA_RA, rm::ZWJ, rm::KANNADA_HALANT]) {
+                unswapped.swap(1, 2);
+            }
+            if let Err((s, e)) = runs_sorted(&unswapped) {
+                return Err(fail("run-not-sorted", ctx(&format!("output run {}..{} is not sorted by modified class", s, e))));
+            }
+        }
+    }
+
+    // ---- layer 1: equality with the documented steps -----------------------------------------
+    if !matched {
+        let sig = match class {
+            ScriptClass::Arabic => "arabic-amtra-mismatch",
+            ScriptClass::ThaiLao => "thai-lao-reference-mismatch",
+            ScriptClass::Indic(_) => "indic-reference-mismatch",
+            ScriptClass::Khmer => "khmer-reference-mismatch",
+            _ => "reference-mismatch",
+        };
+        return Err(fail(sig, ctx(&format!("documented steps give [{}]", show(&exp)))));
+    }
+
+    // ---- idempotence (scripts whose output contains nothing left to rewrite) -----------------
+    if matches!(class, ScriptClass::Default | ScriptClass::Syriac | ScriptClass::Arabic | ScriptClass::Myanmar | ScriptClass::ThaiLao) {
+        let mut again = got.clone();
+        preprocess_text(&mut again, t);
+        if again != got {
+            return Err(fail("not-idempotent", ctx(&format!("a second pass gives [{}]", show(&again)))));
+        }
+    }
+
+    // ---- the same through Font::map_glyphs -------------------------------------------------
+    if with_font {
+        check_map_glyphs(t, input, &got, rec)?;
+    }
+
+    // ---- accounting ---------------------------------------------------------------------------
+    // Myanmar: nothing may change, so the informative cases are those a default sort would change
+    let myanmar_unsorted = class == ScriptClass::Myanmar && rm::reference(input, tag(b"latn"), &key, Variant::PRIMARY).0 != input;
+    rec.set_nontrivial(got != input || myanmar_unsorted);
+    rec.hash_bytes(&t.to_be_bytes());
+    for c in input {
+        rec.hash_bytes(&(*c as u32).to_le_bytes());
+    }
+    let cname = match class {
+        ScriptClass::Default => "script:default",
+        ScriptClass::Syriac => "script:syriac",
+        ScriptClass::Arabic => "script:arabic",
+        ScriptClass::ThaiLao => "script:thai-lao",
+        ScriptClass::Indic(_) => "script:indic",
+        ScriptClass::Khmer => "script:khmer",
+        ScriptClass::Myanmar => "script:myanmar",
+    };
+    rec.class(cname);
+    for a in ambiguous {
+        rec.class(a);
+    }
+    rec.class_if(input.is_empty(), "empty");
+    rec.class_if(tr.runs_reordered > 0, "rewrite:run-reordered");
+    rec.class_if(tr.runs_reordered > 1, "rewrite:several-runs-reordered");
+    rec.class_if(tr.longest_run >= 10, "run>=10");
+    rec.class_if(tr.longest_run >= 20, "run>=20");
+    rec.class_if(tr.shadda_moved > 0, "rewrite:arabic-shadda-moved");
+    rec.class_if(tr.mcm230_moved > 0, "rewrite:arabic-mcm230-moved");
+    rec.class_if(tr.mcm220_moved > 0, "rewrite:arabic-mcm220-moved");
+    if class == ScriptClass::Arabic {
+        let shaddas = input.iter().filter(|&&c| c == SHADDA).count();
+        rec.class_if(shaddas >= 2 && input.iter().any(|&c| rm::is_mcm(c)), "arabic:several-shaddas-with-mcm");
+    }
+    rec.class_if(tr.am_split > 0, "rewrite:am-split");
+    rec.class_if(tr.am_split > 1, "rewrite:several-am");
+    rec.class_if(tr.am_rotated > 0, "rewrite:am-nikhahit-moved");
+    rec.class_if(tr.splits > 0, "rewrite:indic-split-matra");
+    rec.class_if(tr.circles > 0, "rewrite:dotted-circle");
+    rec.class_if(tr.reph_i > 0, "rewrite:reph-i-circle");
+    rec.class_if(tr.ya_nukta > 0, "rewrite:bengali-ya-nukta");
+    rec.class_if(tr.kannada_swap > 0, "rewrite:kannada-ra-halant-zwj");
+    rec.class_if(tr.khmer_splits > 0, "rewrite:khmer-split");
+    rec.class_if(myanmar_unsorted, "myanmar:unsorted-left-alone");
+    rec.sample(|| format!("{} [{}] -> [{}]", tag_str(t), show(input), show(&got)));
+    Ok(())
+}
+
+fn check_case(case: &Case, rec: &mut Rec) -> CaseResult {
+    let text = render(case);
+    let fam_tags = family_tags(case.family);
+    rec.class_if(!fam_tags.contains(&case.tag), "tag:foreign-or-arbitrary");
+    check_text(case.tag, &text, true, rec)
+}
+
+// ------------------------------------------------------------------------------------------
+// deterministic enumerations
+// ------------------------------------------------------------------------------------------
+
+/// the `idx`-th string over `alphabet` in length-then-lexicographic order (idx 0 = empty)
+fn nth_string(alphabet: &[char], mut idx: u64) -> Vec<char> {
+    let k = alphabet.len() as u64;
+    let mut len = 0u32;
+    let mut block = 1u64;
+    while idx >= block {
+        idx -= block;
+        block *= k;
+        len += 1;
+    }
+    let mut v = vec![alphabet[0]; len as usize];
+    for i in (0..len as usize).rev() {
+        v[i] = alphabet[(idx % k) as usize];
+        idx /= k;
+    }
+    v
+}
+
+fn count_strings(k: u64, max_len: u32) -> u64 {
+    (0..=max_len).map(|l| k.pow(l)).sum()
+}
+
+const CHUNK: u64 = 512;
+
+/// In a multi-text item the attributed known defect must not hide the texts after it: remember
+/// it, keep checking, report it at the end of the item. Anything else fails the item at once.
+fn keep_known(r: CaseResult, known: &mut Option<Fail>) -> CaseResult {
+    match r {
+        Err(f) if f.sig == SIG_AM_DEFECT => {
+            if known.is_none() {
+                *known = Some(f);
+            }
+            Ok(())
+        }
+        other => other,
+    }
+}
+
+fn small_strings(ctx: &mut Ctx, name: &str, alphabet: &'static [u32], max_len: u32, tags: &[u32]) {
+    let tags: Vec<u32> = tags.to_vec();
+    let alpha = chars(alphabet);
+    let total = count_strings(alpha.len() as u64, max_len);
+    let chunks = (total + CHUNK - 1) / CHUNK;
+    ctx.enumerate(name, chunks, true, move |chunk, rec| {
+        let mut m = Multi::default();
+        for idx in chunk * CHUNK..((chunk + 1) * CHUNK).min(total) {
+            let s = nth_string(&alpha, idx);
+            for t in &tags {
+                m.check(*t, &s, false)?;
+            }
+        }
+        rec.hash_u64(chunk);
+        m.finish(rec)
+    });
+}
+
+/// Several texts checked inside one enumeration item: per-text records go to a scratch
+/// recorder, the item records the totals.
+#[derive(Default)]
+struct Multi {
+    n: u64,
+    changed: u64,
+    known: Option<Fail>,
+}
+
+impl Multi {
+    fn check(&mut self, t: u32, text: &[char], with_font: bool) -> CaseResult {
+        let mut scratch = Rec::for_fuzz();
+        let r = check_text(t, text, with_font, &mut scratch);
+        self.n += 1;
+        if scratch.nontrivial {
+            self.changed += 1;
+        }
+        keep_known(r, &mut self.known)
+    }
+    fn finish(self, rec: &mut Rec) -> CaseResult {
+        rec.evaluations(self.n.saturating_sub(1));
+        rec.set_nontrivial(self.changed > 0);
+        rec.class_if(self.changed > 0, "enumerated-item:some-text-changed");
+        self.known.map_or(Ok(()), Err)
+    }
+}
+
+fn mcc_table(ctx: &mut Ctx) {
+    ctx.enumerate("mcc-table", 0x110000 / 4096, true, |chunk, rec| {
+        let mut marks = 0u64;
+        for cp in chunk as u32 * 4096..(chunk as u32 + 1) * 4096 {
+            let c = match char::from_u32(cp) {
+                Some(c) => c,
+                None => continue,
+            };
+            let class = ccc(c);
+            let k = key(c);
+            if (class == 0) != (k == 0) {
+                // canonical class 0 must never be reordered; a non-zero class the library
+                // declines to reorder is not a violation but changes what a "run" is
+                if class == 0 {
+                    return Err(fail("mcc-nonzero-for-starter", format!("U+{:04X}: canonical class 0 but modified class {}", cp, k)));
+                }
+                rec.class("mcc:nonstarter-not-reordered");
+            }
+            if class != 0 {
+                marks += 1;
+                let (doc, open) = rm::doc_mcc_of_class(class);
+                if k != doc {
+                    if open {
+                        rec.class(&format!("mcc:documents-differ-ccc{}", class));
+                    } else {
+                        return Err(fail(
+                            "mcc-differs-from-documents",
+                            format!("U+{:04X} (ccc {}): modified class {} but the shaping documents give {}", cp, class, k, doc),
+                        ));
+                    }
+                }
+            }
+        }
+        rec.evaluations(marks);
+        rec.set_nontrivial(marks > 0);
+        rec.hash_u64(chunk);
+        Ok(())
+    });
+}
+
+fn tables_sweep(ctx: &mut Ctx) {
+    // every prohibited pair, reph+I, every split matra, the Khmer splits and the special
+    // sequences, each in several contexts, under every Indic tag (+ khmr, + a default tag)
+    let mut items: Vec<Vec<char>> = Vec::new();
+    for p in rm::PROHIBITED_PAIRS.iter() {
+        let (a, b) = (p.0, p.1);
+        let cons = char::from_u32((a as u32 & !0x7F) + 0x15).unwrap();
+        items.push(vec![a, b]);
+        items.push(vec![cons, a, b]);
+        items.push(vec![a, b, a, b]);
+        items.push(vec![a, a, b]);
+        items.push(vec![a, b, b]);
+        items.push(vec![a, b, cons, a, b, cons]);
+        items.push(vec![b, a]);
+        items.push(vec![a, '\u{200D}', b]);
+        for q in rm::PROHIBITED_PAIRS.iter() {
+            if q.0 == b {
+                items.push(vec![a, b, q.1]);
+            }
+        }
+    }
+    items.push(rm::REPH_I.to_vec());
+    items.push(chars(&[0x915, 0x930, 0x94D, 0x907]));
+    items.push(chars(&[0x930, 0x94D, 0x907, 0x930, 0x94D, 0x907]));
+    items.push(chars(&[0x930, 0x94D, 0x93C, 0x907]));
+    items.push(chars(&[0x930, 0x94D]));
+    items.push(chars(&[0xB85, 0xBC2]));
+    for s in rm::INDIC_SPLITS.iter() {
+        let c = s.0;
+        let cons = char::from_u32((c as u32 & !0x7F) + 0x15).unwrap();
+        let nukta = char::from_u32((c as u32 & !0x7F) + 0x3C).unwrap();
+        let virama = char::from_u32((c as u32 & !0x7F) + 0x4D).unwrap();
+        items.push(vec![c]);
+        items.push(vec![cons, c]);
+        items.push(vec![cons, c, c]);
+        items.push(vec![cons, c, cons, c, cons, c]);
+        items.push(vec![cons, c, nukta]);
+        items.push(vec![cons, virama, nukta, c, virama, nukta]);
+        for t in rm::INDIC_SPLITS.iter() {
+            items.push(vec![c, t.0]);
+        }
+    }
+    for c in rm::KHMER_SPLITS.iter() {
+        items.push(vec![*c]);
+        items.push(vec![*c, *c]);
+        items.push(chars(&[0x1780, *c as u32, 0x17D2, 0x179A, *c as u32]));
+        items.push(chars(&[0x1780, 0x17DD, 0x17D2, *c as u32, 0x17DD, 0x17D2]));
+    }
+    for v in [
+        &[0x9AFu32, 0x9BC][..],
+        &[0x9AF, 0x9BC, 0x9BC],
+        &[0x9AF, 0x9BC, 0x9AF, 0x9BC],
+        &[0x9AF, 0x9CD, 0x9BC],
+        &[0x9AF, 0x9AF, 0x9BC],
+        &[0x9AF, 0x9BC, 0x9CB],
+        &[0x9DF, 0x9BC],
+        &[0xCB0, 0xCCD, 0x200D],
+        &[0xCB0, 0xCCD, 0x200D, 0xC95],
+        &[0xC95, 0xCB0, 0xCCD, 0x200D, 0xC95],
+        &[0xCB0, 0xCCD, 0x200D, 0xCB0, 0xCCD, 0x200D],
+        &[0xCB0, 0x200D, 0xCCD],
+        &[0xCB0, 0xCCD, 0xCBC, 0x200D],
+        &[0xCB0, 0xCCD, 0x200C],
+    ] {
+        items.push(chars(v));
+    }
+    let mut tags: Vec<u32> = INDIC_TAGS[..10].to_vec();
+    tags.extend([tag(b"khmr"), tag(b"latn"), tag(b"dev2"), tag(b"thai"), tag(b"arab"), tag(b"mymr")]);
+    let n = items.len() as u64;
+    ctx.enumerate("tables-sweep", n, true, move |i, rec| {
+        let mut m = Multi::default();
+        for t in &tags {
+            m.check(*t, &items[i as usize], true)?;
+        }
+        rec.hash_u64(i);
+        m.finish(rec)
+    });
+}
+
+// alphabets of the exhaustive small-string sweeps
+const ARABIC_SMALL: &[u32] = &[0x628, 0x651, 0x654, 0x655, 0x64E, 0x650, 0x653, 0x65C];
+const THAI_SMALL: &[u32] = &[0xE01, 0xE48, 0xE33, 0xE34, 0xE38, 0xE3A, 0xE4D];
+const LAO_SMALL: &[u32] = &[0xE81, 0xEC8, 0xEB3, 0xEB4, 0xEB8, 0xEBA, 0xECD];
+const HEBREW_SMALL: &[u32] = &[0x5D1, 0x5B0, 0x5B4, 0x5BC, 0x5BD, 0x5C1, 0x591, 0x5AB];
+const MIXED_SMALL: &[u32] = &[0x61, 0x301, 0x323, 0x334, 0x93C, 0x94D, 0xC55, 0xE38, 0xE3A, 0xF72, 0xF74];
+const INDIC_SMALL: &[u32] = &[0x9AF, 0x9BC, 0x9CD, 0x9CB, 0x985, 0x9BE, 0x9DF];
+const KNDA_SMALL: &[u32] = &[0xCB0, 0xCCD, 0x200D, 0xC95, 0xCCB, 0xCBC];
 
 impl Property for C17 {
     fn id(&self) -> &'static str {
         "C17"
     }
     fn rule(&self) -> String {
-        "not implemented".to_string()
+        "proptest builds texts of 0-48 scalars from up to 8 segments (script base letters, block characters, mark runs of 1-30 marks drawn from \
+         script-focused pools and from all ~900 characters of non-zero canonical class, script-specific rewrite triggers: shadda/MCM mixes, \
+         SARA AM after tone marks, every split matra, every prohibited vowel pair, reph+I, ya+nukta chains, ra+halant+ZWJ, Khmer split vowels; \
+         joiners, arbitrary BMP/astral scalars) under a script tag (family tags 14/16, any dispatched tag 1/16, arbitrary u32 1/16); six sections, one per \
+         script family. Exhaustive enumerations: all strings up to length 5-6 over small Arabic, Thai, Lao, Hebrew, Bengali, Kannada and mixed alphabets, \
+         every table row (pairs, splits) in several contexts under every Indic tag, and the modified-combining-class table over all code points. \
+         Each (tag, text) is run through scripts::preprocess_text and Font::map_glyphs and checked against relational invariants \
+         (content, immobility of canonical-class-0 characters, marks confined to their run, stable order by the library's modified class) and for equality \
+         with a reference transcription of the documented steps. Non-trivial = preprocessing changed the text (a run had an inversion or a documented \
+         rewrite applied); distinct by hash of (tag, text)."
+            .to_string()
     }
-    fn run(&self, _ctx: &mut Ctx) {}
+    fn assumptions(&self) -> Vec<String> {
+        vec![
+            "canonical combining classes come from the unicode-canonical-combining-class crate (Unicode 16), the same data source the library uses; the modified class used as sort key is the library's own public function, compared separately with the documented table".into(),
+            "accepted either way (counted as ambiguous:*): rescanning the second member of a prohibited pair (U+0A85 U+0AC5 U+0ABE), Kannada ra+halant+ZWJ away from the text start, U+0ECE as above-base mark, Tamil U+0B85 U+0BC2 from later revisions of the constraint table".into(),
+            "Indic2 tags (dev2, ...) are treated as unknown tags (default reordering only): callers pass Indic1 tags".into(),
+            "map_glyphs comparison skips texts containing variation selectors other than VS1-3, VS15, VS16".into(),
+        ]
+    }
+    fn run(&self, ctx: &mut Ctx) {
+        // harness self-test of the reference against examples printed in the documents
+        ctx.enumerate("reference-selftest", 1, true, |_, rec| {
+            rm::self_test();
+            rec.nontrivial();
+            rec.hash_u64(0);
+            Ok(())
+        });
+        mcc_table(ctx);
+        tables_sweep(ctx);
+        let q = |ctx: &Ctx, quick: u64, thorough: u64| ctx.cases(quick, thorough);
+        let n = q(ctx, 140_000, 2_200_000);
+        ctx.section("arabic", n, case_strategy(Family::Arabic), check_case);
+        let n = q(ctx, 120_000, 2_000_000);
+        ctx.section("default-syriac", n, case_strategy(Family::Default), check_case);
+        let n = q(ctx, 120_000, 2_000_000);
+        ctx.section("thai-lao", n, case_strategy(Family::ThaiLao), check_case);
+        let n = q(ctx, 160_000, 2_800_000);
+        ctx.section("indic", n, case_strategy(Family::Indic), check_case);
+        let n = q(ctx, 40_000, 700_000);
+        ctx.section("khmer", n, case_strategy(Family::Khmer), check_case);
+        let n = q(ctx, 20_000, 300_000);
+        ctx.section("myanmar", n, case_strategy(Family::Myanmar), check_case);
+        // beyond the 0-48 scalars of the other sections: very long mark runs (sorting code paths
+        // that differ for long slices), Arabic pool with many shaddas, under three tags
+        let n = q(ctx, 12_000, 200_000);
+        ctx.section(
+            "long-runs",
+            n,
+            (0u8..4, proptest::collection::vec(any::<u32>(), 21..160), 0u8..3),
+            |(sel, rs, tsel), rec| {
+                let mut pool = arabic_marks().clone();
+                pool.extend([SHADDA; 8]);
+                let mut text: Vec<char> = vec!['\u{0628}'];
+                for r in rs {
+                    text.push(match sel {
+                        0 => pool[pick(pool.len(), *r)],
+                        1 => {
+                            let g = all_marks();
+                            g[pick(g.len(), *r)]
+                        }
+                        2 => [SHADDA, '\u{0654}', '\u{0655}', '\u{064E}', '\u{0653}', '\u{065C}'][pick(6, *r)],
+                        _ => render_mark(Family::Default, false, *r),
+                    });
+                }
+                text.push('\u{0627}');
+                let t = [tag(b"arab"), tag(b"latn"), tag(b"syrc")][*tsel as usize];
+                rec.class("long-run");
+                check_text(t, &text, false, rec)
+            },
+        );
+        // exhaustive small strings
+        let deep = ctx.thorough();
+        small_strings(ctx, "arabic-small", ARABIC_SMALL, if deep { 7 } else { 6 }, &[tag(b"arab")]);
+        small_strings(ctx, "thai-small", THAI_SMALL, if deep { 7 } else { 6 }, &[tag(b"thai")]);
+        small_strings(ctx, "lao-small", LAO_SMALL, if deep { 7 } else { 6 }, &[tag(b"lao ")]);
+        small_strings(ctx, "hebrew-small", HEBREW_SMALL, if deep { 6 } else { 5 }, &[tag(b"hebr"), tag(b"syrc"), tag(b"arab")]);
+        small_strings(ctx, "mixed-small", MIXED_SMALL, if deep { 5 } else { 4 }, &[tag(b"latn"), tag(b"thai"), tag(b"telu"), tag(b"khmr"), tag(b"mymr")]);
+        small_strings(ctx, "bengali-small", INDIC_SMALL, if deep { 6 } else { 5 }, &[tag(b"beng"), tag(b"deva")]);
+        small_strings(ctx, "kannada-small", KNDA_SMALL, if deep { 6 } else { 5 }, &[tag(b"knda"), tag(b"telu")]);
+    }
 }
